@@ -16,7 +16,9 @@ node cache), and this file (everything about insertion-built trees, `Searchable`
   trees `search_complete_reach`, `search_complete_reach_loaded` with no side condition.
 * `search_ok`: when every position listed as missing is present (`AllPresent`), the cache is sane and every node
   records a `min_n_below`, `search` does not raise (`findFuel` suffices); `Searchable keep`, `search_exact`,
-  `reach_searchable`, `reach_loaded_searchable` put it together.
+  `reach_searchable`, `reach_loaded_searchable` put it together.  All of it for the three score types (Jaccard,
+  containment, max-containment) and for a query at the tree's scaled or coarser (`search_exact_all_kinds`;
+  `oldNodeOk_prunes_match`: without the `subj_size = 1` repair a coarser query prunes a matching leaf).
 * `searchable_of_insInv` (bridge from the insertion invariant; needs `MinSome`, which `InsInv` does not imply:
   `insInv_not_searchable`), `addNode_searchable`, and the headline `search_after_insert_into_loaded`.
 * T3 `insInv_after_full_load`, `insert_after_full_load`.
@@ -73,7 +75,7 @@ theorem search_incomplete_minN_zero :
     split at h'
     · rename_i hp; cases h'; exact ⟨hp.symm, rfl⟩
     · cases h'
-  refine ⟨t, ⟨false, 100, [5]⟩, l, ⟨by decide, hsz, ?_⟩, (cover_iff_coverB _).mpr (by decide), ?_, ?_, rfl, by decide,
+  refine ⟨t, ⟨false, 100, [5], false, none⟩, l, ⟨by decide, hsz, ?_⟩, (cover_iff_coverB _).mpr (by decide), ?_, ?_, rfl, by decide,
     ?_⟩
   · intro p m h
     obtain ⟨_, rfl⟩ := hnode p m h
@@ -128,6 +130,64 @@ theorem search_exact {fixed keep : Bool} {t : Tree} (h : Searchable keep t) (q :
   · rintro ⟨hp, p, hl⟩
     exact search_complete_gen q h.base h.cover h.clean h.minPos (Or.inr h.allPresent) hls hl hp
 
+/-- **pruning is sound for every score type and for coarser queries**: `search_exact` spelled out for Jaccard
+(`c = m = false`), containment (`c = true`), max-containment (`m = true`), a query at the tree's scaled
+(`cut = none`) or coarser (`cut = some max_hash`) -/
+theorem search_exact_all_kinds {fixed keep : Bool} {t : Tree} (h : Searchable keep t) (c m : Bool) (thr : Nat)
+    (mins : List Nat) (cut : Option Nat) :
+    ∃ ls, (search fixed keep t ⟨c, thr, mins, m, cut⟩).2 = .ok ls ∧
+      ∀ l, l ∈ ls ↔ (leafPasses ⟨c, thr, mins, m, cut⟩ l = true ∧ ∃ p, t.leaves.get? p = some l) :=
+  (search_exact (fixed := fixed) h ⟨c, thr, mins, m, cut⟩).2.2
+
+/-- the node test without the `subj_size = 1` repair for a coarser query: `min_n_below`, counted at the tree's
+scaled, is used as the subject size -/
+def oldNodeOk (q : Query) (sizes : List Nat) (n : INode) (m : Nat) : Bool :=
+  passes q ((n.data sizes).matchCount q.mins) (denomOf q m m)
+
+/-- a decidable form of `r = .ok ls` (`Except` has no `DecidableEq`) -/
+def okIs (r : Except Err (List Leaf)) (ls : List Leaf) : Bool :=
+  match r with
+  | .ok x => decide (x = ls)
+  | .error _ => false
+
+theorem okIs_eq {r : Except Err (List Leaf)} {ls : List Leaf} (h : okIs r ls = true) : r = .ok ls := by
+  cases r with
+  | error e => cases h
+  | ok x =>
+    simp only [okIs, decide_eq_true_eq] at h
+    rw [h]
+
+/-- **a coarser query without the `subj_size = 1` repair would be unsound**: the leaf `{5, 20}` under a root that
+covers it and records `min_n_below = 2`; the Jaccard query `{5}` at threshold 1.0, coarser than the tree
+(`max_hash = 10`).  The leaf is scored downsampled, `{5}`: 1/1, it passes.  The older node test scores the root
+1/2 < 1.0 and prunes it; the repaired test scores it 1/1, and `search` reports the leaf. -/
+theorem oldNodeOk_prunes_match :
+    ∃ (t : Tree) (n : INode) (q : Query) (l : Leaf), t.nodes.get? 0 = some n ∧ t.leaves.get? 1 = some l ∧
+      Base t ∧ Cover t ∧ Holds t.sizes n l ∧ n.minN = some 2 ∧ leafPasses q l = true ∧
+      oldNodeOk q t.sizes n 2 = false ∧ nodeOk q t.sizes n 2 = true ∧
+      ∀ fixed keep : Bool, (search fixed keep t q).2 = .ok [l] := by
+  let n : INode := ⟨some ((NG.new [3] 1).addMany [5, 20]), none, false, some 2⟩
+  let l : Leaf := ⟨0, [5, 20]⟩
+  let t : Tree := ⟨2, [3], [(0, n)], [(1, l)], [], 2, none, []⟩
+  have hsz : SizesOK [3] := by intro s hs; simp at hs; omega
+  have hnode : ∀ p m, t.nodes.get? p = some m → p = 0 ∧ m = n := by
+    intro p m h
+    have h' : PMap.get? [(0, n)] p = some m := h
+    rw [PMap.get?_cons, PMap.get?_nil] at h'
+    split at h'
+    · rename_i hp; cases h'; exact ⟨hp.symm, rfl⟩
+    · cases h'
+  refine ⟨t, n, ⟨false, 1000, [5], false, some 10⟩, l, rfl, rfl, ⟨by decide, hsz, ?_⟩,
+    (cover_iff_coverB _).mpr (by decide), ⟨by decide, 2, rfl, by decide⟩, rfl, by decide, by decide, by decide, ?_⟩
+  · intro p m h
+    obtain ⟨_, rfl⟩ := hnode p m h
+    refine ⟨?_, fun g hg => by cases hg⟩
+    intro g hg
+    cases hg
+    exact ⟨addMany_wf (new_wf hsz 1) _, by rw [addMany_sizes, new_sizes]⟩
+  · intro fixed keep
+    cases fixed <;> cases keep <;> (apply okIs_eq; decide)
+
 /-- the insertion invariant gives `AllPresent`: whatever `_missing_nodes` still lists is a present internal node -/
 theorem allPresent_of_insInv {t : Tree} (h : InsInv t) : AllPresent t := by
   rcases h.2.2 with he | ⟨m, M, hs⟩
@@ -173,7 +233,7 @@ theorem insInv_not_searchable :
     intro hms
     have := hms 2 INode.fresh rfl
     cases this
-  refine ⟨t, ⟨false, 100, [5]⟩, ⟨⟨by decide, hsz, ?_⟩, (cover_iff_coverB _).mpr (by decide), Or.inr ⟨3, 3, ?_⟩⟩,
+  refine ⟨t, ⟨false, 100, [5], false, none⟩, ⟨⟨by decide, hsz, ?_⟩, (cover_iff_coverB _).mpr (by decide), Or.inr ⟨3, 3, ?_⟩⟩,
     ?_, ?_, ?_, rfl, hnotms, fun keep h => hnotms h.minSome, ?_⟩
   · intro p m h
     rcases hnode p m h with rfl | rfl
